@@ -18,6 +18,8 @@
 (***************************************************************************)
 EXTENDS Naturals, Integers, Sequences, FiniteSets, TLC, Json, IOUtils
 CONSTANTS Export, MaxOps, Budgets
+\* The client's own dial hook does what such hooks are for: it configures the connection through the PreSession it is
+\* given (ControlFD), on the first dial and on every re-dial.
 \* hok: the client's own dial hook (PostDial with isRedial) accepts re-established connections; when it does not, a
 \* redial attempt that reaches the server still fails, exactly as if the server were away
 VARIABLES budget, up, conn, ended, inflight, uid, n, hist, quiet, hok
